@@ -866,3 +866,9 @@ def check(ctx) -> None:
     rule_e5(ctx)
     rule_e6(ctx)
     rule_e7(ctx)
+    # E11: the labels a row carries are those computed for that row: the validator decomposes, compares and counts
+    # carbon on the rows it labels, in their order (shared with C01-R2)
+    from ..pipeline import Pipeline
+    from . import c01
+
+    c01.rule_r2(ctx, Pipeline(ctx), "C07-E11")
